@@ -108,7 +108,15 @@ class SiteFacts(Interp):
                 self.hit(k, e, st)
 
     def on_assign(self, lhs, rhs, st):
-        if self.assign_trigger:
+        if self.assign_trigger and not self.assign_pre:
+            k = self.assign_trigger(lhs, rhs, st)
+            if k is not None:
+                self.hit(k, lhs, st)
+
+    assign_pre = False      # evaluate assign_trigger before the lvalue's own side effects (arr[i++] = ...)
+
+    def pre_assign(self, lhs, rhs, st):
+        if self.assign_trigger and self.assign_pre:
             k = self.assign_trigger(lhs, rhs, st)
             if k is not None:
                 self.hit(k, lhs, st)
